@@ -29,7 +29,7 @@ vf::Shape shape() {
   sh.n_points = 1;
   sh.tp = TP_INJ;
   sh.ep = EP_ALL;
-  sh.ints = {{0, kNumOps - 1}};
+  sh.ints = {{0, kNumOps - 1}, {0, 1}};   // pair; 1 = request only the Jacobian under test
   sh.scalars = {SK_UNIT, SK_UNIT};   // weight of the objective, scale of the covariance
   return sh;
 }
@@ -63,9 +63,12 @@ template <class A, class B> static double primal_err(const A& dual, const B& dbl
 
 struct Res { std::string name; bool needs_log = false; MatL Jan, Jad, scale; double perr = 0; bool rows_tan = true, cols_tan = true; bool ok = true; bool check_valid = false; double out_dev = 0; };
 
-static Res evaluate(int idx, const GD& X, const GD& Y, const TD& T, const TD& U, const typename GD::Vector& pt, double w_obj, double cov_scale, double S) {
+static Res evaluate(int idx, bool only, const GD& X, const GD& Y, const TD& T, const TD& U, const typename GD::Vector& pt, double w_obj, double cov_scale, double S) {
   Res r;
   JacD a, b;
+  using OptD = typename GD::OptJacobianRef;
+  auto A = [&](bool under_test) { return (under_test || !only) ? OptD(a) : OptD{}; };
+  auto B = [&](bool under_test) { return (under_test || !only) ? OptD(b) : OptD{}; };
   const GroupT Xc = lift(X), Yc = lift(Y); const TangentT Tc = lift(T);
   auto grp = [&](const char* n, const GD& y0, const GroupT& yj, const JacD& Jan) { r.name = n; r.Jan = toML(Jan); r.Jad = djac(yj, y0); r.perr = primal_err(yj.coeffs(), y0.coeffs(), S); };
   auto vec = [&](const char* n, const TD& y0, const TangentT& yj, const JacD& Jan) { r.name = n; r.Jan = toML(Jan); r.Jad = dvec(yj.coeffs(), D); r.perr = primal_err(yj.coeffs(), y0.coeffs(), S); };
@@ -73,18 +76,18 @@ static Res evaluate(int idx, const GD& X, const GD& Y, const TD& T, const TD& U,
     case 0: { GD y = X.inverse(a); grp("inverse", y, perturbed(X).inverse(), a); } break;
     case 1: { TD y = X.log(a); r.needs_log = true; vec("log", y, perturbed(X).log(), a); } break;
     case 2: { GD y = T.exp(a); grp("exp", y, perturbed(T).exp(), a); } break;
-    case 3: { GD y = X.compose(Y, a, b); grp("compose/a", y, perturbed(X).compose(Yc), a); } break;
-    case 4: { GD y = X.compose(Y, a, b); grp("compose/b", y, Xc.compose(perturbed(Y)), b); } break;
-    case 5: { GD y = X.between(Y, a, b); grp("between/a", y, perturbed(X).between(Yc), a); } break;
-    case 6: { GD y = X.between(Y, a, b); grp("between/b", y, Xc.between(perturbed(Y)), b); } break;
-    case 7: { GD y = X.rplus(T, a, b); grp("rplus/m", y, perturbed(X).rplus(Tc), a); } break;
-    case 8: { GD y = X.rplus(T, a, b); grp("rplus/t", y, Xc.rplus(perturbed(T)), b); } break;
-    case 9: { GD y = X.lplus(T, a, b); grp("lplus/m", y, perturbed(X).lplus(Tc), a); } break;
-    case 10: { GD y = X.lplus(T, a, b); grp("lplus/t", y, Xc.lplus(perturbed(T)), b); } break;
-    case 11: { TD y = X.rminus(Y, a, b); r.needs_log = true; vec("rminus/a", y, perturbed(X).rminus(Yc), a); } break;
-    case 12: { TD y = X.rminus(Y, a, b); r.needs_log = true; vec("rminus/b", y, Xc.rminus(perturbed(Y)), b); } break;
-    case 13: { TD y = X.lminus(Y, a, b); r.needs_log = true; vec("lminus/a", y, perturbed(X).lminus(Yc), a); } break;
-    case 14: { TD y = X.lminus(Y, a, b); r.needs_log = true; vec("lminus/b", y, Xc.lminus(perturbed(Y)), b); } break;
+    case 3: { GD y = X.compose(Y, A(true), B(false)); grp("compose/a", y, perturbed(X).compose(Yc), a); } break;
+    case 4: { GD y = X.compose(Y, A(false), B(true)); grp("compose/b", y, Xc.compose(perturbed(Y)), b); } break;
+    case 5: { GD y = X.between(Y, A(true), B(false)); grp("between/a", y, perturbed(X).between(Yc), a); } break;
+    case 6: { GD y = X.between(Y, A(false), B(true)); grp("between/b", y, Xc.between(perturbed(Y)), b); } break;
+    case 7: { GD y = X.rplus(T, A(true), B(false)); grp("rplus/m", y, perturbed(X).rplus(Tc), a); } break;
+    case 8: { GD y = X.rplus(T, A(false), B(true)); grp("rplus/t", y, Xc.rplus(perturbed(T)), b); } break;
+    case 9: { GD y = X.lplus(T, A(true), B(false)); grp("lplus/m", y, perturbed(X).lplus(Tc), a); } break;
+    case 10: { GD y = X.lplus(T, A(false), B(true)); grp("lplus/t", y, Xc.lplus(perturbed(T)), b); } break;
+    case 11: { TD y = X.rminus(Y, A(true), B(false)); r.needs_log = true; vec("rminus/a", y, perturbed(X).rminus(Yc), a); } break;
+    case 12: { TD y = X.rminus(Y, A(false), B(true)); r.needs_log = true; vec("rminus/b", y, Xc.rminus(perturbed(Y)), b); } break;
+    case 13: { TD y = X.lminus(Y, A(true), B(false)); r.needs_log = true; vec("lminus/a", y, perturbed(X).lminus(Yc), a); } break;
+    case 14: { TD y = X.lminus(Y, A(false), B(true)); r.needs_log = true; vec("lminus/b", y, Xc.lminus(perturbed(Y)), b); } break;
     case 15: {
       Eigen::Matrix<double, GD::Dim, GD::DoF> jm; Eigen::Matrix<double, GD::Dim, GD::Dim> jv;
       const auto y = X.act(pt, jm, jv);
@@ -150,13 +153,20 @@ static Res evaluate(int idx, const GD& X, const GD& Y, const TD& T, const TD& U,
     } break;
     default: {
       // constraint: sqrt_info * ( measurement - (future (-) past) )
-      typename manif::CeresConstraintFunctor<GD>::Covariance cov = manif::CeresConstraintFunctor<GD>::Covariance::Identity();
+      using CF = manif::CeresConstraintFunctor<GD>;
+      typename CF::Covariance cov = CF::Covariance::Identity();
       for (int i = 0; i < D; ++i) cov(i, i) = 0.01 + cov_scale * (1 + i);
-      const typename manif::CeresConstraintFunctor<GD>::Covariance covc = cov;
+      // half of the cases: a full (non-diagonal) SPD covariance  D + a v v^T
+      const bool full = w_obj > 0.5;
+      if (full) {
+        Eigen::Matrix<double, GD::DoF, 1> v; for (int i = 0; i < D; ++i) v(i) = std::sin(1.0 + 3.7 * i + 10 * w_obj);
+        cov += (0.5 + cov_scale) * v * v.transpose();
+      }
+      const typename CF::Covariance covc = cov;
       // the covariance is given either to the constructor or through the setter after construction
       const bool via_setter = cov_scale > 0.5;
-      const typename manif::CeresConstraintFunctor<GD>::Covariance cov0 = via_setter ? typename manif::CeresConstraintFunctor<GD>::Covariance(manif::CeresConstraintFunctor<GD>::Covariance::Identity()) : covc;
-      manif::CeresConstraintFunctor<GD> f(U, cov0);
+      const typename CF::Covariance cov0 = via_setter ? typename CF::Covariance(CF::Covariance::Identity()) : covc;
+      CF f(U, cov0);
       if (via_setter) f.setMeasurementCovariance(covc);
       std::vector<Scalar> pa(R), fu(R), out(D);
       const bool wrt_past = idx == 24;
@@ -164,15 +174,42 @@ static Res evaluate(int idx, const GD& X, const GD& Y, const TD& T, const TD& U,
       for (int i = 0; i < R; ++i) { pa[i] = Pj.coeffs()(i); fu[i] = Fj.coeffs()(i); }
       const bool okf = f(pa.data(), fu.data(), out.data());
       const TD d = Y.rminus(X, a, b);   // future (-) past: a = d/dfuture, b = d/dpast
-      Eigen::Matrix<double, GD::DoF, GD::DoF> Uinfo = Eigen::Matrix<double, GD::DoF, GD::DoF>::Zero();
-      for (int i = 0; i < D; ++i) Uinfo(i, i) = 1.0 / std::sqrt(cov(i, i));
-      const Eigen::Matrix<double, GD::DoF, 1> want = Uinfo * (U.coeffs() - d.coeffs());
       const Eigen::Map<const TangentT> o(out.data());
-      r.name = wrt_past ? "Constraint/past" : "Constraint/future"; r.needs_log = true;
-      r.Jan = toML(JacD(-(Uinfo * (wrt_past ? b : a)))); r.Jad = dvec(o.coeffs(), D);
-      r.scale = toML(Uinfo) * block_max_matrix(SpecOf<GD>::get(), toML(wrt_past ? b : a));
-      double sc = 1; for (int i = 0; i < D; ++i) sc = std::max(sc, Uinfo(i, i));
-      r.perr = primal_err(o.coeffs(), want, S * sc * (1 + U.coeffs().cwiseAbs().maxCoeff())); r.rows_tan = false; r.ok = okf;
+      const Eigen::Matrix<double, GD::DoF, 1> e = U.coeffs() - d.coeffs();
+      const typename CF::Covariance info = covc.inverse();
+      r.name = wrt_past ? "Constraint/past" : "Constraint/future"; r.needs_log = true; r.rows_tan = false; r.ok = okf;
+      if (!full) {
+        // diagonal covariance: the upper square root of the information is diag(1/sigma)
+        Eigen::Matrix<double, GD::DoF, GD::DoF> Uinfo = Eigen::Matrix<double, GD::DoF, GD::DoF>::Zero();
+        for (int i = 0; i < D; ++i) Uinfo(i, i) = 1.0 / std::sqrt(cov(i, i));
+        const Eigen::Matrix<double, GD::DoF, 1> want = Uinfo * e;
+        r.Jan = toML(JacD(-(Uinfo * (wrt_past ? b : a)))); r.Jad = dvec(o.coeffs(), D);
+        r.scale = toML(Uinfo) * block_max_matrix(SpecOf<GD>::get(), toML(wrt_past ? b : a));
+        double sc = 1; for (int i = 0; i < D; ++i) sc = std::max(sc, Uinfo(i, i));
+        r.perr = primal_err(o.coeffs(), want, S * sc * (1 + U.coeffs().cwiseAbs().maxCoeff()));
+      } else {
+        // full covariance, independent of the factorisation convention: |r|^2 is the Mahalanobis distance e^T cov^-1 e
+        // and its derivative is -2 e^T cov^-1 J
+        double n2 = 0; typename Scalar::Vec g = Scalar::Vec::Zero();
+        for (int i = 0; i < D; ++i) { n2 += o.coeffs()(i).a * o.coeffs()(i).a; g += 2 * o.coeffs()(i).a * o.coeffs()(i).v; }
+        const double want = e.dot(info * e);
+        const Eigen::Matrix<double, 1, GD::DoF> gw = -2.0 * (e.transpose() * info) * (wrt_past ? b : a);
+        MatL Jan(1, D), Jad(1, D);
+        for (int j = 0; j < D; ++j) { Jan(0, j) = gw(j); Jad(0, j) = g(j); }
+        r.Jan = Jan; r.Jad = Jad;
+        // rounding scale of e = m - d (it may cancel), and conditioning of the inversion of the covariance
+        const Eigen::Matrix<double, GD::DoF, 1> ae = (U.coeffs().cwiseAbs() + d.coeffs().cwiseAbs()) * S + Eigen::Matrix<double, GD::DoF, 1>::Constant(1e-300);
+        const typename CF::Covariance ainfo = info.cwiseAbs();
+        const double cond = D * covc.cwiseAbs().maxCoeff() * ainfo.maxCoeff();
+        r.scale = MatL(toML(Eigen::Matrix<double, 1, GD::DoF>(2.0 * cond * (ae.transpose() * ainfo))) * block_max_matrix(SpecOf<GD>::get(), toML(wrt_past ? b : a)));
+        r.perr = std::fabs(n2 - want) / (cond * (ae.transpose() * ainfo * ae)(0));
+        r.name += "(full covariance)";
+        // the square root must be the UPPER factor (info = R^T R, R upper): its first row is info(0,:)/sqrt(info(0,0)),
+        // whichever way it is computed
+        const double u00 = std::sqrt(info(0, 0));
+        double r0 = 0; for (int j = 0; j < D; ++j) r0 += info(0, j) / u00 * e(j);
+        r.perr = std::max(r.perr, std::fabs(o.coeffs()(0).a - r0) / (cond * (ainfo.row(0) * ae)(0) / u00));
+      }
     } break;
   }
   return r;
@@ -212,7 +249,7 @@ vf::Outcome run_case(const vf::Case& c, const vf::RunCtx& ctx) {
     double S = 1; for (LD v : Sv) S = std::max(S, (double)v);
     for (int i = 0; i < N; ++i) S = std::max(S, 1 + std::fabs((double)pt(i)));
     for (size_t b = 0; b < s.e.size(); ++b) if (s.e[b].k == K_SGAL3) S *= 1 + std::fabs((double)xc(s.rep_off((int)b) + 10));
-    const Res r = evaluate(idx, X, Y, T, U, pt, c.reals[2 * R + 2 * D + N], c.reals[2 * R + 2 * D + N + 1], S);
+    const Res r = evaluate(idx, c.ints[1] != 0, X, Y, T, U, pt, c.reals[2 * R + 2 * D + N], c.reals[2 * R + 2 * D + N + 1], S);
     k.label("op=" + r.name);
     if (!r.ok) { k.label("excluded: not differentiable / not applicable"); k.inconclusive("excluded point"); return k.o; }
     // domain: logarithm away from the cut
@@ -311,8 +348,17 @@ vf::Outcome run_case(const vf::Case& c, const vf::RunCtx& ctx) {
       const TangentT m = X.rminus(Y); const TD md = Xd.rminus(Yd);
       k.bound("float~double:rminus", (double)ref_group_err(s, ref_exp(s, toVL(m.coeffs())), ref_exp(s, toVL(md.coeffs())), {(LD)S}), tol, "rminus: float differs from double");
     }
-    k.bound("float~double:adj", (double)jac_block_err(s, toML(X.adj()), toML(Xd.adj())), 64 * tol * S, "adj: float differs from double");
-    k.bound("float~double:rjac", (double)jac_block_err(s, toML(T.rjac()), toML(Td.rjac())), 64 * tol * S, "rjac: float differs from double");
+    // matrices: block-relative (as the Jacobian checks), to single-precision accuracy
+    {
+      const MatL scX = lin_row_scale(s, ref_lin_scale_c(s, xc));
+      k.bound("float~double:adj", (double)jac_block_err(s, toML(X.adj()), toML(Xd.adj()), true, true, &scX), tol, "adj: float differs from double");
+      const MatL scT = lin_row_scale(s, ref_lin_scale_t(s, toVL(Td.coeffs())));
+      k.bound("float~double:rjac", (double)jac_block_err(s, toML(T.rjac()), toML(Td.rjac()), true, true, &scT), tol, "rjac: float differs from double");
+      k.bound("float~double:ljac", (double)jac_block_err(s, toML(T.ljac()), toML(Td.ljac()), true, true, &scT), tol, "ljac: float differs from double");
+      typename GroupT::Jacobian Jf; typename GD::Jacobian Jd;
+      T.exp(Jf); Td.exp(Jd);
+      k.bound("float~double:J_exp", (double)jac_block_err(s, toML(Jf), toML(Jd), true, true, &scT), tol, "Jacobian of exp: float differs from double");
+    }
     k.bound("float~double:hat", relerr(T.hat(), Td.hat(), 1.0), 0.0, "hat: float differs from double on float inputs");
     k.o.nontrivial = tan_theta_max(s, toVL(Td.coeffs())) != 0;
     k.label(std::string("t:") + theta_stratum((double)tan_theta_max(s, toVL(Td.coeffs())), true));
